@@ -115,44 +115,56 @@ def fanout_session(report, drv, backend, rng, keys, tag, collide):
     try:
         run = psess.Runner(relay, rng, keys, limit)
         run.addr_mod = 1 if collide else 2
-        msgs = psess.gen_session(rng, keys, relay, rng.randint(10, 24), limit)
+        run.install_holds()
+        msgs = psess.gen_session(rng, keys, relay, rng.randint(10, 24), limit, holds=True)
         for m in msgs:
             run.step(m)
+        run.release_all()
         payload = {"backend": backend, "limit": limit, "colliding_ids": collide, "messages": run.sent_msgs}
         resp = drv.call({"op": "proto.session", "limit": limit, "eoc": backend == "kv", "msgs": run.model_msgs})
         inv_n = {v: k for k, v in run.names.ids.items()}
         pushes = 0
+        corr_ok = True
         for i, (mm, real, r) in enumerate(zip(run.model_msgs, run.real_steps, resp)):
             if r == "disabled":
                 report.correspondence_break("%s protocol machine: label not enabled" % backend, dict(payload, at=i), "enabled", "disabled")
                 break
-            if mm["t"] != "event":
-                continue
             model = run.model_frames(r)
-            evid = run.sent_msgs[i]["msg"][1]["id"]
-            want = Counter()
-            if mm.get("accepted"):
-                for c, n in mm.get("match", []):
-                    want[(c, inv_n[n])] += 1
-            got = Counter()
-            for c, frames in real.items():
-                for x in frames:
-                    if x[0] == "EVENT":
-                        got[(c, x[1])] += 1
-                        if x[2] != evid:
-                            report.property_failure("%s: a push carries a different event than the one just accepted" % backend, dict(payload, at=i), None)
-            pushes += sum(got.values())
-            if got != want:
-                extra = {k: v for k, v in (got - want).items()}
-                missing = {k: v for k, v in (want - got).items()}
-                report.property_failure(
-                    "%s: after an accepted event the pushes differ from 'once to every open matching subscription': unexpected %r, missing %r"
-                    % (backend, sorted(map(str, extra.items())), sorted(map(str, missing.items()))), dict(payload, at=i), None)
-            for c in real:
-                if Counter(real[c]) != Counter(model.get(c, [])):
-                    report.correspondence_break("%s start_client vs protocol machine (frames of connection %d after message %d: event)"
-                                                % (backend, c, i), dict(payload, at=i), [list(x) for x in real[c]], [list(x) for x in model.get(c, [])])
+            if mm["t"] == "event":
+                evid = run.sent_msgs[i]["msg"][1]["id"]
+                want = Counter()
+                if mm.get("accepted"):
+                    for c, n in mm.get("match", []):
+                        want[(c, inv_n[n])] += 1
+                got = Counter()
+                for c, frames in real.items():
+                    for x in frames:
+                        if x[0] == "EVENT":
+                            got[(c, x[1])] += 1
+                            if x[2] != evid:
+                                report.property_failure("%s: a push carries a different event than the one just accepted" % backend, dict(payload, at=i), None)
+                pushes += sum(got.values())
+                if got != want:
+                    extra = {k: v for k, v in (got - want).items()}
+                    missing = {k: v for k, v in (want - got).items()}
+                    held_now = sorted(str(k) for k in missing if any(m2.get("hold") and m2["c"] == k[0] and inv_n[m2["sub"]] == k[1]
+                                                                     for m2 in run.model_msgs[:i] if m2["t"] == "req"))
+                    report.property_failure(
+                        "%s: after an accepted event the pushes differ from 'once to every open matching subscription': unexpected %r, missing %r%s"
+                        % (backend, sorted(map(str, extra.items())), sorted(map(str, missing.items())),
+                           (" (stored query still running for %s)" % held_now) if held_now else ""), dict(payload, at=i), None)
+            for c in (real if corr_ok else []):
+                got_c, want_c = real[c], model.get(c, [])
+                if mm["t"] in ("req", "release"):
+                    k = max(1, len(run.sent_msgs[i]["msg"]) - 2) if mm["t"] == "req" else 3
+                    cnt = Counter(got_c)
+                    got_c = [x for x in cnt for _ in range(1 if (x[0] == "EVENT" and cnt[x] <= k) else cnt[x])]
+                if Counter(got_c) != Counter(want_c):
+                    report.correspondence_break("%s start_client vs protocol machine (frames of connection %d after message %d: %s)"
+                                                % (backend, c, i, mm["t"]), dict(payload, at=i), [list(x) for x in got_c], [list(x) for x in want_c])
+                    corr_ok = False
                     break
+        report.count("held_queries", sum(1 for m in run.model_msgs if m.get("hold")))
         for cn in run.conns.values():
             if not cn.done:
                 cn.close()
@@ -162,6 +174,10 @@ def fanout_session(report, drv, backend, rng, keys, tag, collide):
         report.count("sessions_" + backend)
     finally:
         util.secrets.token_hex = real_hex
+        try:
+            run.uninstall_holds()
+        except NameError:
+            pass
         relay.close()
 
 
